@@ -60,6 +60,14 @@ PROBES = [
       "fields": [{"name": "v", "type": "Annotated[Var, Discriminator(field='kind', include_subtypes=True)]", "mode": "req",
                   "alias": None}], "mixin": True, "own_module": True,
       "forbid": False, "allow_nba": False, "discr": None, "discr_keys": []}, {"v": {"kind": "v1"}}),
+    # a field typed with a PEP 695 alias on the two error paths (regression probes of fix 3dfbd5e: the alias was rendered
+    # as its bare name, unbound in the generated code: NameError instead of MissingField / InvalidFieldValue)
+    ({"cls": "P_alias", "source": "@dataclass\nclass P_alias(DataClassDictMixin):\n    o: OptI\n",
+      "fields": [{"name": "o", "type": "OptI", "mode": "req", "alias": None}], "mixin": True,
+      "forbid": False, "allow_nba": False, "discr": None, "discr_keys": []}, {}),
+    ({"cls": "P_alias2", "source": "@dataclass\nclass P_alias2(DataClassDictMixin):\n    o: OptI\n",
+      "fields": [{"name": "o", "type": "OptI", "mode": "req", "alias": None}], "mixin": True,
+      "forbid": False, "allow_nba": False, "discr": None, "discr_keys": []}, {"o": "zz"}),
 ]
 DISCR_PROBES = [[1], {"type": [1]}]
 
@@ -654,7 +662,18 @@ def run(ctx: vlib.Ctx):
         "discriminator at a codec root and in a holder field")
     ctx.trusted += [
         "Errs.v: model of the generated from_dict body / union chain / discriminator dispatch (hand-written, compared "
-        "with /repo by vm_compute on every run and by an AST shape check of every captured generated from_dict)",
+        "with /repo by vm_compute on every run and by an AST shape check of every captured generated from_dict); since round 6 "
+        "the field block, the frame (allowed keys, extra-keys check, d.keys touch, except AttributeError) and the union method "
+        "are ALSO derived from /repo: kernels K105a / K105b / K19 translate the emitting code, FieldEmit.v / FrameEmit.v / ErrsEmit.v give "
+        "the emitted statements their meaning with exception classes, and C05_program_emitted / C05_union_emitted prove the emitted "
+        "program equal to Errs.from_dict / Errs.union_run",
+        "FieldEmit.v / FrameEmit.v / ErrsEmit.lines_c: Python meaning of the emitted statement vocabulary (d.get / d.keys on a "
+        "non-mapping raise AttributeError, `is MISSING` / `is not None` tests, bare `except:` catches everything, `except Exception: "
+        "pass` exactly the Exception subclasses, `else:` belongs to the `if` right before it) - hand-written, small; the tie between "
+        "vocabulary and real text is the per-run comparison of every captured block / frame / union method, normalised, with the "
+        "rendering of the translated function (c05_field_block_text, c05_frame_text, c05_k19_emit, c05_union_method_shape)",
+        "tools/kernels/k105a_field_block.py, k105b_frame.py: fail-closed AST translators (statements recognised by exact unparsed text); "
+        "K19 is property C11's translator (tools/kernels/k19_union_emit.py)",
         "Python semantics modelled not verified: dict.get / dict.keys on non-dicts raise AttributeError, isinstance(d, dict), "
         "bare except catches every BaseException, `except Exception` does not catch BaseException-only classes, "
         "value[str] on non-mappings raises TypeError, registry[tag] on an unhashable tag raises TypeError",
@@ -685,18 +704,33 @@ def run(ctx: vlib.Ctx):
     ctx.theorems("props/C05_errors.vo", THEOREMS)
     ctx.theorems("props/C05_typed.vo", TYPED_THEOREMS)
     ctx.theorems("props/C05_xtyped.vo", ["C05_x_outcomes", "C05_x_first_bad", "C05_x_union_position",
-                                         "C05_x_union_rejects_partial", "C05_lit_ok", "C05_lit_exn"])
+                                         "C05_x_union_rejects_partial", "C05_lit_ok", "C05_lit_exn",
+                                         "C05_x_list_exn", "C05_x_list_ok", "C05_x_list_union_rejects_partial",
+                                         "C05_x_dict_not_mapping"])
+    # (T) kernel K19 (the emission loop of UnionUnpackerBuilder._add_body, C11's translation): the emitted union method,
+    # run with exception classes, is Errs.union_run / the union position of ErrsX
+    ctx.theorems("props/C05_emit.vo", ["C05_union_emitted", "C05_union_emitted_exceptions",
+                                       "C05_union_emitted_rejects_partial", "C05_x_union_emitted"], kernels=["K19"])
+    # (T) kernel K105a (FieldUnpackerCodeBlockBuilder.build): the emitted field block computes Errs.field_step; the program built
+    # from the emitted blocks is Errs.from_dict
+    ctx.theorems("props/C05_fieldblock.vo", ["C05_field_block_emitted", "C05_field_blocks_emitted", "C05_from_dict_emitted",
+                                             "C05_emitted_outcomes", "C05_emitted_first_bad", "C05_frame_emitted",
+                                             "C05_allowed_keys_emitted", "C05_program_emitted", "C05_program_extra_exact"],
+                 kernels=["K105a", "K105b"])
+    # (T) kernel K105c (prologue of the emitted discriminated dispatcher): its exceptions are Errs.discr_run's, it hands on the tag
+    ctx.theorems("props/C05_discr_emit.vo", ["C05_discr_prologue_exn", "C05_discr_prologue_ok", "C05_discr_prologue_classes"],
+                 kernels=["K105c"])
     # (T) kernel K16: emitted handler classes + exceptions.py hierarchy, re-translated from /repo on every run
     ctx.theorems("props/C05_handlers.vo", ["C05_k16_handlers_as_modelled", "C05_k16_documented_pass_through",
                                            "C05_k16_model_patterns"], kernels=["K16"])
     if not ctx.quick():
         # second opinion: the independent checker re-validates the compiled property files and their cone
         rc, log, secs = vlib.run(["timeout", "1500", "coqchk", "-silent", "-o", "-Q", "theories", "Verif", "-Q", "gen", "VerifGen",
-                                  "-Q", "props", "VerifProps", "VerifProps.C05_errors", "VerifProps.C05_typed", "VerifProps.C05_xtyped", "VerifProps.C05_handlers"],
+                                  "-Q", "props", "VerifProps", "VerifProps.C05_errors", "VerifProps.C05_typed", "VerifProps.C05_xtyped", "VerifProps.C05_emit", "VerifProps.C05_fieldblock", "VerifProps.C05_discr_emit", "VerifProps.C05_handlers"],
                                  cwd=vlib.COQ, timeout=1530)
         ok = rc == 0 and "Axioms: <none>" in log
-        ctx.obligation("coqchk VerifProps.C05_errors C05_typed C05_handlers (Axioms: <none>)", ok, log[-400:])
-        ctx.trusted.append("coqchk -o on C05_errors + C05_typed + C05_handlers: " + ("Axioms: <none>" if ok else "FAILED " + log[-200:]))
+        ctx.obligation("coqchk VerifProps.C05_errors C05_typed C05_xtyped C05_emit C05_fieldblock C05_discr_emit C05_handlers (Axioms: <none>)", ok, log[-400:])
+        ctx.trusted.append("coqchk -o on C05_errors + C05_typed + C05_xtyped + C05_emit + C05_fieldblock + C05_discr_emit + C05_handlers: " + ("Axioms: <none>" if ok else "FAILED " + log[-200:]))
         if not ok:
             ctx.not_shown("coqchk VerifProps.C05_errors/C05_typed", log[-800:])
 
@@ -706,6 +740,8 @@ def run(ctx: vlib.Ctx):
     corr_budget = ctx.budget(500, 12000)
 
     class_cases, class_labels = [], []
+    from harness.props import c05_fblock
+    fb = c05_fblock.Collector()
     shape_checked = shape_bad = 0
     shape_detail = []
     try:
@@ -751,7 +787,14 @@ def run(ctx: vlib.Ctx):
                     shape_checked += 1
                     shape_bad += 1
                     shape_detail.append(f"{s['cls']}: no generated from_dict with the non-mapping frame was captured")
+                try:
+                    fmetas = O.field_meta(s, mod)
+                except Exception:  # noqa: BLE001 - judged by the behavioural stream
+                    fmetas = None
                 for p in roots:
+                    if fmetas is not None:
+                        fb.add_program(s["cls"], p, fmetas)
+                    fb.add_frame(s, p)
                     shape_checked += 1
                     pr = shape_problems(p, names, idents, s["forbid"])
                     if pr:
@@ -765,6 +808,10 @@ def run(ctx: vlib.Ctx):
             ctx.not_shown("correspondence generated-from_dict-shape", "; ".join(shape_detail[:10]))
         if shape_checked == 0:
             ctx.not_shown("correspondence generated-from_dict-shape", "no generated program was captured")
+        # kernel K105a: every captured field block, as text, vs the translated FieldUnpackerCodeBlockBuilder.build; two fixed classes
+        # make every reachable combination of the five facts (20) occur on every run
+        c05_fblock.add_coverage(fb, Recorder)
+        fb.run(ctx)
 
         # ---- field-loop level: oracle + correspondence cases
         for s, mod, ents in schemas:
@@ -888,6 +935,9 @@ def run(ctx: vlib.Ctx):
             if xbad:
                 ctx.not_shown("correspondence c05_xtyped", f"{len(xbad)} of {len(xcases)} cases differ: {det}")
         ctx.count(n=len(xcases))
+        # kernel K105c: the prologue of every discriminated dispatcher generated for fixed fresh hierarchies, as text
+        from harness.props import c05_emit as _c05_emit
+        _c05_emit.run_discr(ctx)
         hic, hil = hier_section(ctx, rng, ctx.budget(120, 1500))
         run_corr(ctx, "c05_discr_history", hic,
                  "fun c => match c with (f, vs, ins, outs) => list_eqb res_eqb (discr_history f vs [] ins) outs end",
